@@ -162,7 +162,10 @@ def run(ctx):
                        'ConstructPatches is modelled for manifests with distinct requirement names, no new keys, vulnerabilities without subgraphs',
                        'version grammar of the universes: <major>.0.0 parses, ^x / ~x / ranges / 1x do not (asserted against deps.dev npm semver at generator start)',
                        'ticker table: accesses are syntactic (x.f with x a walkContext receiver/parameter/local); aliasing through other pointers is not tracked']
-    ctx.rule = ('patches: every delivery order (DFS with re-execution) of 14 fixed universes (2..4 initial vulns, follow-ups grouped and per-vuln, errors, empty patches, duplicates, '
+    ctx.rule = ('chains: 48 (quick) / 144 (thorough) universes with one initial vulnerability whose fixes introduce new ones 1..8 levels deep, fan-out 1..3 per level, per-vuln (relax) '
+                'and grouped (override) branch, attempts over up to 9 (per-vuln) / 25 (grouped) accumulated ids — delivery orders enumerated with a cap AND run ungated under the Go scheduler '
+                '(GOMAXPROCS 1 and 16, 2/5 repetitions with Gosched/sleep perturbation before every attempt reads its ids), also under -race one case at a time (halt_on_error: a report is '
+                'attributed to the running case); patches: every delivery order (DFS with re-execution) of 14 fixed universes (2..4 initial vulns, follow-ups grouped and per-vuln, errors, empty patches, duplicates, '
                 'hypothesis violations) and of N random universes (cap per universe); cache: every interleaving of start-caller / release-fetch-ok / release-fetch-err for 2..4 callers over '
                 '1..2 keys (first caller on key 0), plus one SetMap (3 maps) + GetMap anywhere (quick: <=3 callers, thorough: 4); race: the same streams under -race and whole scans of '
                 '30..37 files over a slow FS (> 2.5 s, ticker fires). non-trivial = patches case with >=3 deliveries, cache case with a waiter or a failed fetch; distinct = distinct case lines')
@@ -207,7 +210,7 @@ def run(ctx):
             # the specification does not need the model's run of this schedule: also judged when the implementation made calls the
             # model's worklist never has (res=bad-schedule on the model side)
             if fm.get('cmpeq') == '1' and fm.get('order') == '1' and 'spec' in fm and fm['spec'] != 'nonterminating' \
-                    and not r.startswith(('desync', 'incomplete', 'unspecified')):
+                    and not r.startswith(('desync', 'incomplete', 'unspecified', 'bad-schedule')):
                 return patches_verdict(r, fm['spec'], 'under the delivery order %s' % '/'.join(
                     '[' + ','.join(bytes.fromhex(x).decode('utf-8', 'replace') for x in k.split('.')) + ']' for k in t[5].split('/') if k != '-'))
             return None
